@@ -25,7 +25,8 @@ def match_open(prop, violation: dict):
         if not obs or not obs <= set(f.get("obligations", [])):
             continue
         cls = f.get("input_class")
-        if cls and cls not in feats:
+        # a list of classes: the failing input must belong to one of them
+        if cls and not (set(cls) & feats if isinstance(cls, list) else cls in feats):
             continue
         n = violation.get("count")
         return f"{f['id']} {sorted(obs)[0]} [{cls}]" + (f" ({n} inputs in this run)" if n else "") + f": {f['what'][:160]}"
